@@ -519,6 +519,8 @@ def main(pid, argv=None):
         snoop_sequences(ck)
     if pid == "C03" and (not ck.replay or doc_level):
         real_valued_reencode(ck)
+    if pid == "C04" and (not ck.replay or doc_level):
+        condensed_encode_probe(ck)
     if pid == "C17" and (not ck.replay or doc_level):
         cli_mode_restore(ck)
         cli_mode_during(ck)
@@ -1202,6 +1204,8 @@ def real_valued_reencode(ck):
         return
     raw = db.diag_layers[0].diag_layer_raw
     n = 0
+    # a flag described by a condensed single-bit BIT-MASK beside a 7 bit value in the same byte: every bit is described
+    n += condensed_flag_reencode(ck)
     for i, (name, bits, _c, _p) in enumerate(REAL_DOPS):
         rq = [r for r in raw.requests if r.short_name == f"rq_{name}"][0]
         if bits == 8 or ck.tier != "quick":
@@ -1222,6 +1226,74 @@ def real_valued_reencode(ck):
                              {"document": "harness/codec_checks.py REAL_DOPS", "request": f"rq_{name}", "msg": pdu.hex()})
                 break
     ck.coverage["real_valued_pdus"] = n
+
+
+def condensed_flag_reencode(ck):
+    import hier_common as hc
+
+    def dop(nm, bits, mask=None):
+        return (f'<DATA-OBJECT-PROP ID="{nm}"><SHORT-NAME>{nm}</SHORT-NAME><COMPU-METHOD><CATEGORY>IDENTICAL</CATEGORY></COMPU-METHOD>'
+                f'<DIAG-CODED-TYPE BASE-DATA-TYPE="A_UINT32"{" IS-CONDENSED=" + chr(34) + "true" + chr(34) if mask else ""} xsi:type="STANDARD-LENGTH-TYPE">'
+                f'<BIT-LENGTH>{bits}</BIT-LENGTH>{"<BIT-MASK>" + mask + "</BIT-MASK>" if mask else ""}</DIAG-CODED-TYPE>'
+                '<PHYSICAL-TYPE BASE-DATA-TYPE="A_UINT32"/></DATA-OBJECT-PROP>')
+    doc = ('<?xml version="1.0" encoding="UTF-8"?><ODX MODEL-VERSION="2.2.0" xmlns:xsi="http://www.w3.org/2001/XMLSchema-instance">'
+           '<DIAG-LAYER-CONTAINER ID="DLC"><SHORT-NAME>DLC</SHORT-NAME><BASE-VARIANTS><BASE-VARIANT ID="BV"><SHORT-NAME>BV</SHORT-NAME>'
+           f'<DIAG-DATA-DICTIONARY-SPEC><DATA-OBJECT-PROPS>{dop("flag", 8, "80")}{dop("rest", 7)}</DATA-OBJECT-PROPS></DIAG-DATA-DICTIONARY-SPEC>'
+           '<REQUESTS><REQUEST ID="rq_flag"><SHORT-NAME>rq_flag</SHORT-NAME><PARAMS>'
+           '<PARAM xsi:type="VALUE"><SHORT-NAME>flag</SHORT-NAME><BYTE-POSITION>0</BYTE-POSITION><BIT-POSITION>0</BIT-POSITION><DOP-REF ID-REF="flag"/></PARAM>'
+           '<PARAM xsi:type="VALUE"><SHORT-NAME>rest</SHORT-NAME><BYTE-POSITION>0</BYTE-POSITION><BIT-POSITION>1</BIT-POSITION><DOP-REF ID-REF="rest"/></PARAM>'
+           '</PARAMS></REQUEST></REQUESTS></BASE-VARIANT></BASE-VARIANTS></DIAG-LAYER-CONTAINER></ODX>')
+    try:
+        rq = hc.load_docs([doc]).diag_layers[0].diag_layer_raw.requests[0]
+    except Exception as e:  # noqa
+        ck.note_broken(f"cannot load the condensed-flag document: {type(e).__name__}: {e}")
+        return 0
+    for x in range(256):
+        pdu = bytes([x])
+        ck.count(("condensed-flag", x))
+        d, e, _ = cc.guarded(lambda: rq.decode(pdu), timeout=3)
+        if e is not None:
+            continue
+        r, e2, _ = cc.guarded(lambda: bytes(rq.encode(**d)), timeout=3)
+        if e2 is not None or r != pdu:
+            ck.violation(f"request rq_flag (a flag with condensed single-bit BIT-MASK and a 7 bit value in one byte): PDU {pdu.hex()} decodes to "
+                         f"{d!r} which re-encodes to {r.hex() if e2 is None else repr(e2)}",
+                         {"document": "harness/codec_checks.py condensed_flag_reencode", "request": "rq_flag", "msg": pdu.hex()})
+            break
+    return 256
+
+
+def condensed_encode_probe(ck):
+    """C04 (oracle only; condensed masks are not modelled): encoding any value with a condensed BIT-MASK yields a PDU or an
+    encode error, never a foreign exception -- mask wider / narrower than a byte, with and without bit position"""
+    import hier_common as hc
+    from odxtools.exceptions import OdxError
+    specs = [("c16", 16, "F00F", None), ("c16b", 16, "F00F", 2), ("c8", 8, "81", None), ("c24", 24, "800001", None), ("c12", 12, "0FF", 3)]
+    dops = "".join(
+        f'<DATA-OBJECT-PROP ID="{n}"><SHORT-NAME>{n}</SHORT-NAME><COMPU-METHOD><CATEGORY>IDENTICAL</CATEGORY></COMPU-METHOD>'
+        f'<DIAG-CODED-TYPE BASE-DATA-TYPE="A_UINT32" IS-CONDENSED="true" xsi:type="STANDARD-LENGTH-TYPE"><BIT-LENGTH>{b}</BIT-LENGTH>'
+        f'<BIT-MASK>{m}</BIT-MASK></DIAG-CODED-TYPE><PHYSICAL-TYPE BASE-DATA-TYPE="A_UINT32"/></DATA-OBJECT-PROP>' for n, b, m, _ in specs)
+    reqs = "".join(
+        f'<REQUEST ID="rq_{n}"><SHORT-NAME>rq_{n}</SHORT-NAME><PARAMS><PARAM xsi:type="VALUE"><SHORT-NAME>v</SHORT-NAME><BYTE-POSITION>0</BYTE-POSITION>'
+        + (f"<BIT-POSITION>{bp}</BIT-POSITION>" if bp is not None else "") + f'<DOP-REF ID-REF="{n}"/></PARAM></PARAMS></REQUEST>'
+        for n, _b, _m, bp in specs)
+    doc = ('<?xml version="1.0" encoding="UTF-8"?><ODX MODEL-VERSION="2.2.0" xmlns:xsi="http://www.w3.org/2001/XMLSchema-instance">'
+           '<DIAG-LAYER-CONTAINER ID="DLC"><SHORT-NAME>DLC</SHORT-NAME><BASE-VARIANTS><BASE-VARIANT ID="BV"><SHORT-NAME>BV</SHORT-NAME>'
+           f'<DIAG-DATA-DICTIONARY-SPEC><DATA-OBJECT-PROPS>{dops}</DATA-OBJECT-PROPS></DIAG-DATA-DICTIONARY-SPEC>'
+           f'<REQUESTS>{reqs}</REQUESTS></BASE-VARIANT></BASE-VARIANTS></DIAG-LAYER-CONTAINER></ODX>')
+    try:
+        raw = hc.load_docs([doc]).diag_layers[0].diag_layer_raw
+    except Exception as e:  # noqa
+        ck.note_broken(f"cannot load the condensed-mask document: {type(e).__name__}: {e}")
+        return
+    for rq in raw.requests:
+        for v in (0, 1, 5, 0x81, 0xFF, 0x100, 0xF00F, 0xFFFF, 0x800001, -1):
+            ck.count(("condensed-encode", rq.short_name, v))
+            r, e, _ = cc.guarded(lambda: bytes(rq.encode(v=v)), timeout=3)
+            if e is not None and not isinstance(e, OdxError):
+                ck.violation(f"{rq.short_name}.encode(v={v:#x}) (condensed BIT-MASK) raised {type(e).__name__}: {e}",
+                             {"document": "harness/codec_checks.py condensed_encode_probe", "request": rq.short_name, "value": v})
+                return
 
 
 def code_pages_decode(ck, raw):
@@ -1267,7 +1339,8 @@ def snoop_sequences(ck):
         return
     RX, TX = 0x7B0, 0x7B8
     reqs = [rq, rq[:1], b"", bytes([0x99, 1, 2]), bytes([rq[0] ^ 0xFF]) + rq[1:]]
-    resps = [rs, rs[:1], b"", bytes([0x7F, 0x99, 0x11]), bytes([0x7F, rq[0], 0x78]), bytes([0xD9, 1]), bytes([0x7F])]
+    # (incl. the echo of the request: a response payload which decodes as the request of the service)
+    resps = [rs, rs[:1], b"", bytes([0x7F, 0x99, 0x11]), bytes([0x7F, rq[0], 0x78]), bytes([0xD9, 1]), bytes([0x7F]), rq]
     resps += [rs[:i] + bytes([rs[i] ^ 0x01]) + rs[i + 1:] for i in range(len(rs))]
     seqs = [[(TX, r)] for r in resps]
     seqs += [[(RX, q), (TX, r)] for q in reqs for r in resps]
